@@ -533,6 +533,18 @@ BIG_SIZES = [2 ** 24 + 1, 2 ** 25 + 1, 2 ** 24, 3 * 2 ** 24 + 5, 2 ** 20 + 1, 2 
 
 def run(ctx):
     try:
+        # integers at the edges of machine words (where a sentinel such as sys.maxsize would sit), alone and after a
+        # few small runs
+        import sys as _sys
+        edge = 0
+        for B in (2 ** 31, 2 ** 32, 2 ** 63, _sys.maxsize, 2 ** 64, 2 ** 15, 2 ** 16):
+            for d in (-2, -1, 0, 1, 2):
+                for lead in ([], [1, 2, 3, 10], [B + d - 1], [0, B + d - 2, B + d - 1]):
+                    edge += 1
+                    if edge % ctx.nshards != ctx.shard:
+                        continue
+                    run_case(ctx, {'kind': 'ints', 'ints': lead + [B + d], 'windows': [], 'int_types': False}, check, 'word-edge', None, {})
+
         # byte strings of tens of megabytes (buffer / window / member-size thresholds of an implementation)
         sizes = [z for i, z in enumerate(BIG_SIZES) if i % ctx.nshards == ctx.shard]
         if not ctx.thorough:
